@@ -69,3 +69,82 @@ func ZZ_C04_witness() {
 	ZZ_C04_rotate()
 	vpAssert(false, "witness")
 }
+
+// ---- C09-retry / C08-commit: a failed manifest write must not wedge the session ----
+
+type zzFaultStor struct {
+	storage.Storage
+	failWrite, failSync *bool // armed faults for manifest writers (one shot)
+}
+
+type zzFaultWriter struct {
+	storage.Writer
+	s *zzFaultStor
+}
+
+func (s *zzFaultStor) Create(fd storage.FileDesc) (storage.Writer, error) {
+	w, err := s.Storage.Create(fd)
+	if err != nil || fd.Type != storage.TypeManifest {
+		return w, err
+	}
+	return &zzFaultWriter{w, s}, nil
+}
+
+func (w *zzFaultWriter) Write(p []byte) (int, error) {
+	if *w.s.failWrite {
+		*w.s.failWrite = false
+		return 0, errZZFault
+	}
+	return w.Writer.Write(p)
+}
+
+func (w *zzFaultWriter) Sync() error {
+	if *w.s.failSync {
+		*w.s.failSync = false
+		return errZZFault
+	}
+	return w.Writer.Sync()
+}
+
+func zzEdit(s *session, j int64, q uint64) *sessionRecord {
+	rec := &sessionRecord{}
+	rec.setJournalNum(j)
+	rec.setSeqNum(q)
+	rec.addTable(0, s.allocFileNum(), 10, makeInternalKey(nil, []byte("a"), q, keyTypeVal), makeInternalKey(nil, []byte("b"), q, keyTypeVal))
+	return rec
+}
+
+func ZZ_C09_commit_retry() {
+	fw, fs := false, false
+	stor := &zzFaultStor{Storage: storage.NewMemStorage(), failWrite: &fw, failSync: &fs}
+	s := zzSession(stor, 64<<20)
+	vpAssert(s.create() == nil, "create-ok")
+	vpAssert(s.commit(zzEdit(s, 2, 5), false) == nil, "first-commit-ok")
+	// one transient fault on the next manifest write or sync
+	writeFault := vpNondetBool()
+	if writeFault {
+		fw = true
+	} else {
+		fs = true
+	}
+	rec := zzEdit(s, 3, 9)
+	err := s.commit(rec, false)
+	vpAssert(err != nil, "faulted-commit-reports-the-error")
+	vpAssert(s.stJournalNum == 2 && s.stSeqNum == 5 && s.stVersion.tLen(0) == 1, "failed-commit-leaves-session-state")
+	// the fault is gone: the retry (what compactionCommit's loop does, holding
+	// the commit lock) must eventually succeed
+	err = s.commit(rec, false)
+	if writeFault {
+		vpAssert(err == nil, "commit-succeeds-after-a-transient-write-fault")
+	} else {
+		vpAssert(err == nil, "commit-succeeds-after-a-transient-sync-fault")
+	}
+	if err == nil {
+		vpAssert(s.stJournalNum == 3 && s.stSeqNum == 9 && s.stVersion.tLen(0) == 2, "retried-commit-applied")
+		s.manifest.Close()
+		s.manifestWriter.Close()
+		s2 := zzSession(stor, 64<<20)
+		vpAssert(s2.recover() == nil, "recover-ok")
+		vpAssert(s2.stJournalNum == 3 && s2.stSeqNum == 9 && s2.stVersion.tLen(0) == 2, "reopened-state-after-retry")
+	}
+}
